@@ -29,7 +29,7 @@ import numpy as np
 
 from harness import lib_front as lf
 
-N_MODELS = 3
+N_MODELS = 4
 
 
 def inline_model(k: int):
@@ -62,6 +62,16 @@ def inline_model(k: int):
             value_info=[h.make_tensor_value_info("u", T.FLOAT, ["batch"])],
         )
         g.doc_string = "a doc string"
+    elif k == 3:
+        # an opset-10 model in attribute style (Unsqueeze axes, Pad pads/value, ReduceSum axes): converting it to the
+        # opset of the surrounding build turns the attributes into inputs and makes the converter introduce graph
+        # initializers — `adapt_inline` rewrites the *converted copy*; neither the caller's model nor the one kept
+        # by the `_Inline` node may change, and every later build must give the same bytes
+        nodes = [h.make_node("Unsqueeze", ["x"], ["u"], axes=[0], name="unsq"),
+                 h.make_node("Pad", ["u"], ["p"], pads=[1, 1], mode="constant", value=0.0, name="pad"),
+                 h.make_node("ReduceSum", ["p"], ["z"], axes=[0], keepdims=0, name="rs")]
+        g = h.make_graph(nodes, "pad10", [h.make_tensor_value_info("x", T.FLOAT, [])],
+                         [h.make_tensor_value_info("z", T.FLOAT, [])])
     else:
         # two outputs, input with a symbolic dim
         nodes = [h.make_node("Neg", ["x"], ["a"], name="neg"),
@@ -73,7 +83,7 @@ def inline_model(k: int):
             [h.make_tensor_value_info("a", T.FLOAT, []), h.make_tensor_value_info("b", T.FLOAT, [])],
             initializer=[h.make_tensor("v", T.FLOAT, [1, 2], [1.0, 1.0])],
         )
-    m = h.make_model(g, opset_imports=[h.make_opsetid("", 15 if k == 1 else 17)], ir_version=8, producer_name="verif")
+    m = h.make_model(g, opset_imports=[h.make_opsetid("", {1: 15, 3: 10}.get(k, 17))], ir_version=5 if k == 3 else 8, producer_name="verif")
     m.doc_string = "model doc"
     onnx.checker.check_model(m)
     return m
@@ -114,7 +124,14 @@ def snap_var(v):
         items = vars(v).items()
     except TypeError:
         items = [(k, getattr(v, k, None)) for k in getattr(type(v), "__slots__", ())]
-    return {k.lstrip("_"): _freeze(x) for k, x in items}
+    out = {k.lstrip("_"): _freeze(x) for k, x in items}
+    try:  # the model an `_Inline` node keeps (spox's own copy): builds that convert it must leave it as it was
+        m = getattr(getattr(v, "_op", None), "model", None)
+        if m is not None and hasattr(m, "SerializeToString"):
+            out["inlined-model"] = hashlib.sha1(m.SerializeToString(deterministic=True)).hexdigest()
+    except Exception:  # noqa: BLE001 - not observable on this tree
+        pass
+    return out
 
 
 def snapshot(env):
